@@ -59,8 +59,10 @@ def run_tasks(modname, tasks, nproc=None):
     order = list(range(len(tasks)))
     if cost is not None:
         order.sort(key=lambda i: -cost(tasks[i]))
-    with ctx.Pool(min(nproc, len(tasks)), maxtasksperchild=200) as pool:
-        rs = pool.map(_worker, [(modname, tasks[i]) for i in order], chunksize=1)
+    from concurrent.futures import ProcessPoolExecutor
+    # (a worker that dies makes the executor raise BrokenProcessPool instead of hanging)
+    with ProcessPoolExecutor(max_workers=min(nproc, len(tasks)), mp_context=ctx) as pool:
+        rs = list(pool.map(_worker, [(modname, tasks[i]) for i in order], chunksize=1))
     out = [None] * len(tasks)
     for i, r in zip(order, rs):
         out[i] = r
